@@ -180,7 +180,7 @@ func c17Build(thorough bool) func(hist []string) hx.GView {
 	return func(hist []string) hx.GView {
 		simrt.ClearTraceHooks()
 		m := mdns.NewMDNS(localSKI, "b", "m", "t", "s", nil, "me", "svc-me", 4700, nil, mdns.MdnsProviderSelectionGoZeroConfOnly)
-		r := &rec{name: "m"}
+		r := &rec{name: "m", scribble: true}
 		_ = m.Start(r)
 		simrt.Quiesce()
 		ref := refModel{}
@@ -240,7 +240,7 @@ func c17BurstBody(evs []string, viaHub bool) func() {
 			}
 		} else {
 			m = mdns.NewMDNS(localSKI, "b", "m", "t", "s", nil, "me", "svc-me", 4700, nil, mdns.MdnsProviderSelectionGoZeroConfOnly)
-			r = &rec{name: "m"}
+			r = &rec{name: "m", scribble: true}
 			_ = m.Start(r)
 			lastSet = func() string { return entriesString(r.last()) }
 		}
@@ -281,7 +281,7 @@ func c17RequestBody(evs []string) func() {
 	return func() {
 		simrt.ClearTraceHooks()
 		m := mdns.NewMDNS(localSKI, "b", "m", "t", "s", nil, "me", "svc-me", 4700, nil, mdns.MdnsProviderSelectionGoZeroConfOnly)
-		r := &rec{name: "m"}
+		r := &rec{name: "m", scribble: true}
 		_ = m.Start(r)
 		simrt.Quiesce()
 		ref := refModel{}
